@@ -109,6 +109,19 @@ PLAN = {
         quick=[rapid("prop", "TestProp", 10000)],
         thorough=[rapid("prop", "TestProp", 60000, shards=16)],
     ),
+    "C08": dict(
+        pkg="c08",
+        rule=("rapid-generated build histories with a header, string cells over a Markdown/HTML-hostile alphabet (pipes, escaped pipes, backslashes, backticks, LF in every position incl. a single trailing LF, entity look-alikes of pipe/LF, "
+              "angle brackets, quotes, ampersands, delimiter-row look-alikes, wide characters) plus raw bytes, CR excluded (documented non-goal); ragged, zero-cell and zero-value rows, short headers, separators; "
+              "alignment from {unset,left,right,centre} for column 0 and each column. Oracle from the statement: line count = 2 + data rows; every line has exactly ncols+1 pipes, none backslash-escaped; delimiter cells match ^ ?(:?)-{3,}(:?) ?$ "
+              "with the colon markers of the effective alignment (own else column 0); each cell trimmed of spaces and entity-decoded equals the space-trimmed text; no raw < > \" ' CR, every & starts an escape; missing header or zero columns => error and \"\". "
+              "Non-trivial: content contains a pipe, LF, angle bracket or ampersand, or an alignment is inherited from column 0, or a row is short. Distinct: FNV-64 of the case."),
+        level_text="Generated-input search with a structural parser of the GFM table and a decode-and-compare round trip against the model; native fuzzing of cell texts and alignments. Exploration level.",
+        level_note="Trusts the harness' line/pipe splitter and html.UnescapeString. Padding widths are not asserted (documented as best-effort). Left alignment accepts no marker or a leading colon.",
+        technique="property-based testing (rapid) with a GFM-structure parser + decode round trip + native Go fuzzing",
+        quick=[rapid("prop", "TestProp", 10000)],
+        thorough=[rapid("prop", "TestProp", 60000, shards=16), fuzz("fuzz", "FuzzC08", 45)],
+    ),
     "C18": dict(
         pkg="c18",
         rule=("strings built from a width-hostile token alphabet (newlines leading/trailing/repeated, CJK wide, full-width, combining, zero-width, emoji ZWJ/flag/skin-tone sequences, "
